@@ -162,6 +162,34 @@ def run_guard(g, rep, rng, release=False):
     return dropped
 
 
+def profile_crosscheck(g, rep):
+    """the same cases on a build without debug assertions and overflow checks (the workspace's
+    release profile): the guarantee may not depend on the build profile of the user's crate"""
+    t0 = time.time()
+    g.ws.write([d for d in g.decls if d.id in g.live])
+    rc, errors, stderr = g.ws.build(release=True)
+    if rc != 0:
+        rep.violation("the corpus that builds with the dev profile does not build without debug assertions",
+                      {"kind": "profile-build", "stderr": stderr[-1500:]}, no_input=True)
+        return
+    cases = [(c.cid, c.decl.id, c.op, c.arg) for c in g.cases if c.decl.id in g.live]
+    out = g.ws.run_cases(cases, release=True)
+    n = bad = 0
+    for c in g.cases:
+        r = out.get(c.cid)
+        if r is None or c.impl is None:
+            continue
+        r = r.split(" ## ")[0]
+        n += 1
+        if r != c.impl:
+            bad += 1
+            if bad <= 5:
+                rep.violation("%s(%s) on %s gives %s in a build with debug assertions and %s in one without"
+                              % (c.op, c.arg, c.decl.id, c.impl, r), case_payload(c, g, {"without_debug_assertions": r}))
+    rep.coverage["profile_crosscheck"] = {"cases_rerun_without_debug_assertions": n, "differences": bad,
+                                          "seconds": round(time.time() - t0, 1)}
+
+
 # ------------------------------------------------------------------------------------- C01
 
 F32_INF_K = 0x7f800000
@@ -232,6 +260,7 @@ def f32_sweep(g, rep):
 def c01(tier, rng, rep, only=None):
     g = make_guard_run(tier, rng, decls=only)
     dropped = run_guard(g, rep, rng)
+    profile_crosscheck(g, rep)
     if tier == "thorough" and only is None:
         f32_sweep(g, rep)
     n_cases = n_ok = n_err = n_nontrivial = 0
@@ -381,6 +410,7 @@ def c03(tier, rng, rep, only=None):
         g.add_ops(d, ops)
     g = make_guard_run(tier, rng, decls=only, ops_for=ops_for, spec=False)
     run_guard(g, rep, rng)
+    profile_crosscheck(g, rep)
     n = nconv = 0
     kinds = {}
     for d in g.decls:
@@ -1365,12 +1395,14 @@ def c02(tier, rng, rep, only=None):
     def ops_for(g, d, r):
         if "spelling" in d.tags:
             g.add_ops(d, [("try_new", val_sexp(v)) for v in probes(d)], spec=True)
+        elif "presence" in d.tags:
+            g.add_ops(d, [("try_new", val_sexp(v)) for _, v in d.witnesses], spec=True)
         elif "layout" in d.tags:
             info = runner.DeclInfo(d)
             g.add_ops(d, [("try_new", val_sexp(v)) for v in layout_inputs[d.inner]] + ([("default", "")] if info.has_default else []), spec=False)
     g = make_guard_run(tier, rng, decls=decls, ops_for=ops_for, spec=True, wsname="c02")
     dropped = run_guard(g, rep, rng)
-    n = n_sp = n_lay = 0
+    n = n_sp = n_lay = n_pres = 0
     for d in g.decls:
         mv = g.model_verdict.get(d.id, "")
         if (d.id in dropped) != mv.startswith("reject"):
@@ -1409,6 +1441,18 @@ def c02(tier, rng, rep, only=None):
                 elif c.impl != c.model:
                     rep.violation("model and implementation differ on %s try_new(%s): %s vs %s" % (d.id, c.arg, c.impl, c.model),
                                   case_payload(c, g), no_input=True)
+        elif "presence" in d.tags:
+            for c, (rname, _) in zip(cs, d.witnesses):
+                n += 1
+                n_pres += 1
+                if c.impl is None:
+                    continue
+                if not c.impl.startswith("err"):
+                    rep.violation("rule `%s` written in %s next to other rules is not enforced: try_new(%s) gives %s"
+                                  % (rname, d.id, c.arg, c.impl), case_payload(c, g, {"written_rule": rname}))
+                elif c.impl != c.model:
+                    rep.violation("model and implementation differ on %s try_new(%s): %s vs %s" % (d.id, c.arg, c.impl, c.model),
+                                  case_payload(c, g), no_input=True)
         elif "layout" in d.tags:
             fams.setdefault(d.family_id, []).append(d)
             for c in cs:
@@ -1428,8 +1472,8 @@ def c02(tier, rng, rep, only=None):
                 rep.violation("the same rules written in a different layout behave differently: %s(%s) gives %s in %s but %s in %s"
                               % (c.op, c.arg, c.impl, d.id, ref_out[k_], ref_d.id), case_payload(c, g, {"other_layout": ref_d.to_json()}))
     rep.coverage.update({"evaluations": n, "distinct_nontrivial": n_sp,
-                         "rule": "(1) single-rule declarations for every bound spelling (signed / underscored literals, constants, negated constants, parenthesised, arithmetic, shifts, bit-or, T::MIN/MAX, calls, integer literal for a float bound, exponent floats, associated float constants) x every bound kind x several inner types: the real try_new at the denoted bound and its neighbours is compared with the verdict computed from the INTENDED value and kind (independent of the model) and with the model; (2) layout families: one rule set in every attribute order, with / without trailing commas, closures vs paths, regex literal vs static path: all members must behave identically",
-                         "spelling_probes": n_sp, "layout_probes": n_lay, "layout_families": len(fams), "declarations": len(g.decls), "exhaustive": False})
+                         "rule": "(1) single-rule declarations for every bound spelling (signed / underscored literals, constants, negated constants, parenthesised, arithmetic, shifts, bit-or, T::MIN/MAX, calls, integer literal for a float bound, exponent floats, associated float constants) x every bound kind x several inner types: the real try_new at the denoted bound and its neighbours is compared with the verdict computed from the INTENDED value and kind (independent of the model) and with the model; (2) layout families: one rule set in every attribute order, with / without trailing commas, closures vs paths, regex literal vs static path: all members must behave identically; (3) presence: declarations with two or three rules (finite / lower / upper in every order, literal and constant spellings; not_empty / len_char_min / len_char_max / regex) and for every written rule a witness input that violates it: the constructor must refuse each witness",
+                         "presence_probes": n_pres, "spelling_probes": n_sp, "layout_probes": n_lay, "layout_families": len(fams), "declarations": len(g.decls), "exhaustive": False})
     for c in g.cases[:: max(1, len(g.cases) // 6 or 1)][:6]:
         rep.samples.append({"decl": c.decl.id, "rule": getattr(c.decl, "rule", None), "op": c.op, "arg": c.arg, "impl": c.impl})
     if n_sp == 0 and only is None:
@@ -1595,6 +1639,23 @@ def c05(tier, rng, rep, only=None):
             rep.violation("bypass attempt `%s` on a %s newtype (%s) compiles" % (desc["attack"], desc["shape"], desc.get("where", desc.get("vis"))), payload)
         elif (not expect_rejected) and rejected:
             rep.violation("legal use `%s` on a %s newtype is refused: %s" % (desc["attack"], desc["shape"], dropped[mid][0][:160]), payload, no_input=True)
+    # the feature gate of new_unchecked: a second crate whose nutype dependency lacks the feature
+    gate = attacks.gen_gate_modules()
+    ws2 = runner.ModuleWorkspace("attack_gate", [f for f in runner.FEATURES_ALL if f != "new_unchecked"], nshards=4)
+    dropped2 = ws2.verdicts([(m[0], m[1]) for m in gate])
+    for mid, text, expect_rejected, desc in gate:
+        n += 1
+        rejected = mid in dropped2
+        key = (desc["attack"], "rejected" if rejected else "compiles")
+        by_attack[key] = by_attack.get(key, 0) + 1
+        payload = {"kind": "attack", "module": text, "description": desc, "rustc": (dropped2.get(mid) or ["(compiles)"])[:3],
+                   "reproduce": "put the module into a crate depending on nutype with features std, serde, regex, arbitrary (not new_unchecked) and run cargo check"}
+        if expect_rejected and not rejected:
+            rep.violation("`%s` with the flag %s on a %s newtype compiles although the crate feature new_unchecked is off"
+                          % (desc["attack"], desc["flags"], desc["shape"]), payload)
+        elif (not expect_rejected) and rejected:
+            rep.violation("legal declaration of a %s newtype is refused when the new_unchecked feature is off: %s" % (desc["shape"], dropped2[mid][0][:160]), payload, no_input=True)
+    mods = mods + gate
     # structural half: the real expansions against the inventory model
     n_inv = 0
     for wsname, decls in (("guard", guardcorpus.build_corpus(rng.fork("C01x"), tier)),
